@@ -25,6 +25,7 @@ RULE = (
     "schedule had a send to node 1 complete while a flush write was blocked; distinct = distinct configuration."
     ' Round 5: senders may set the ack flag.'
     ' Round 6: `keys=collide` (ids whose digits concatenate equally) and `prior` (earlier quiet wakes already delivered the racing values).'
+    ' Round 7: `reuse` senders re-send the object an earlier wake delivered.'
 )
 ASSUMPTIONS = [
     "suspension points of send/flush are transport writes (plus whatever the loop needs to settle: a schedule step waits until six loop iterations pass without progress)",
@@ -48,6 +49,11 @@ COLLIDE_REGISTRY = {
     "1": {"sleeping": True, "children": {"1": {"child_type": 3}, "12": {"child_type": 3}}},
     "11": {"sleeping": True, "children": {"2": {"child_type": 3}}},
 }
+
+
+# value types that belong together semantically (cover up / down / stop, dimmer, RGB...): every one is a key of its own
+TYPES_NODE1_KEYS = ((1, 0, 29), (1, 0, 30), (1, 0, 31), (1, 1, 29))
+TYPES_OTHER_KEY = (2, 0, 30)
 
 
 def budgets(tier: str) -> dict:
@@ -81,6 +87,9 @@ def enumerate_cases(tier: str):
                 yield {"version": version, "parked": 2, "other_parked": 1, "senders": senders, "keys": "collide"}
                 yield {"version": version, "parked": 2, "other_parked": 0, "senders": senders, "prior": True}
             yield {"version": version, "parked": 3, "other_parked": 1, "senders": [[2, True], [0, True]], "keys": "collide", "prior": True}
+            for senders in ([[0, True]], [[1, True]], [[1, True], [2, True]], [[2, True], [1, True]], [[0, True], [1, True], [2, True]]):
+                yield {"version": version, "parked": 2, "other_parked": 1, "senders": senders, "keys": "types"}
+                yield {"version": version, "parked": 2, "other_parked": 0, "senders": senders, "listener": "persistent"}
             for senders in ([[0, True, "reuse"]], [[1, True, "reuse"]], [[0, True, "reuse"], [1, True]], [[3, True, "reuse"]]):
                 yield {"version": version, "parked": 2, "other_parked": 0, "senders": senders, "prior": True}
             for senders in ([[0, True, "ack"]], [[1, True, "ack"]], [[1, True, "ack"], [0, True]], [[1, True], [1, True, "ack"]], [[2, True, "ack"], [1, False, "ack"]]):
@@ -111,7 +120,8 @@ def strategy(tier: str):
             "senders": st.lists(sender, min_size=1, max_size=3),
             "represented": st.booleans(),
             "reported": st.booleans(),
-            "keys": st.sampled_from(("plain", "collide")),
+            "keys": st.sampled_from(("plain", "collide", "types")),
+            "listener": st.sampled_from(("fresh", "persistent")),
             "prior": st.booleans(),
         }
     )
@@ -173,6 +183,14 @@ async def _run_schedule(case: dict, schedule: list[int]) -> tuple[Outcome | None
     gateway, _ = env.make_gateway(version, transport=transport)
     collide = case.get("keys") == "collide"
     NODE1_KEYS, OTHER_KEY = (COLLIDE_NODE1_KEYS, COLLIDE_OTHER_KEY) if collide else (globals()["NODE1_KEYS"], globals()["OTHER_KEY"])
+    if case.get("keys") == "types":
+        NODE1_KEYS, OTHER_KEY = TYPES_NODE1_KEYS, TYPES_OTHER_KEY
+    # one long-lived listen() generator for every received line (the README's `async for`), or a fresh one per line
+    shared_listener = env.Listener(gateway) if case.get("listener") == "persistent" else None
+
+    async def receive(line: str):
+        return await (shared_listener.next(line) if shared_listener is not None else env.rx(gateway, line))
+
     registry = COLLIDE_REGISTRY if collide else REGISTRY
     if case.get("reported"):
         # both children of node 1 have already reported "s0" for both value types: a send of "s0" looks redundant
@@ -208,7 +226,7 @@ async def _run_schedule(case: dict, schedule: list[int]) -> tuple[Outcome | None
             if sender[0] != "other" and sender[1] and not (len(sender) > 2 and sender[2] in ("dup", "req")):  # (buffered senders only: a written value must be attributable)
                 await do_send(NODE1_KEYS[sender[0]], f"s{idx}", True)
                 prior_msgs[idx] = sends[-1]["message"]
-        await env.rx(gateway, f"1;255;3;0;{wake_type};5\n")
+        await receive(f"1;255;3;0;{wake_type};5\n")
         if any(rec["parked"] for rec in sends) and not transport.calls:
             return Outcome(ok=True, classes=("diverged-elsewhere",)), [], {}
     prior_calls = len(transport.calls)
@@ -223,7 +241,7 @@ async def _run_schedule(case: dict, schedule: list[int]) -> tuple[Outcome | None
     if case.get("represented"):
         # the node presented itself again while commands were parked: it is not flagged sleeping when its wake arrives
         transport.gating = False
-        await env.rx(gateway, "1;255;0;0;17;2.0\n")
+        await receive("1;255;0;0;17;2.0\n")
         transport.calls.clear()
         transport.gating = True
     specs = []
@@ -271,7 +289,7 @@ async def _run_schedule(case: dict, schedule: list[int]) -> tuple[Outcome | None
         trace.append(f"{kind}{'' if arg is None else arg}")
         if kind == "listen":
             listen_tick[0] = transport.tick()
-            listener = asyncio.ensure_future(env.rx(gateway, f"1;255;3;0;{wake_type};5\n"))
+            listener = asyncio.ensure_future(receive(f"1;255;3;0;{wake_type};5\n"))
         elif kind == "start":
             key, value, buf, ack, reused = specs[arg]
             flush_blocked = any(not fut.done() and _key_of(line)[0] == 1 for line, fut in transport.blocked)
@@ -305,7 +323,9 @@ async def _run_schedule(case: dict, schedule: list[int]) -> tuple[Outcome | None
             return fail(sig, f"schedule {trace}: {value!r}"), factors, info
     transport.gating = False
     for node in (1, OTHER_KEY[0]):
-        status, value = await env.rx(gateway, f"{node};255;3;0;{wake_type};5\n")
+        status, value = await receive(f"{node};255;3;0;{wake_type};5\n")
+        if status == "drained":
+            return fail("final-wake-swallowed", f"schedule {trace}: the wake line of node {node} was consumed but neither yielded nor rejected"), factors, info
         if status != "ok":
             return fail(f"final-wake-raised:{type(value).__name__}", f"schedule {trace}: {value!r}"), factors, info
 
